@@ -113,3 +113,24 @@ Definition docModifiedP7With (good goodSig : list N) (hasAttrs sha1ok sigAttrsOK
                          (fun x => eqbList x goodSig) cmsContent).
 Definition docModifiedP1With (good : list N) :=
   docModified (p1Verdict (fun x => eqbList x good)).
+
+(* ---------- several signers (sign/pkcs7.go:222-249 validatePKCS7Signatures loop,
+   finalizePKCS7Result, sign.go:finalizeLocalSignatureResult, evidence.go:merge/complete) ----------
+   Per signer: sigAuth (the cryptographic signature verifies), digestOK (content digest
+   matches), otherOK (profile, certificate, path and revocation assessments all good).
+   auth = certified || authoritative; all = validateAll.
+     for i, signer := range p7.Signers { verify; merge; if auth && !all { break } } *)
+Record signerAssess := mkSigner { sigAuth : bool; digestOK : bool; otherOK : bool }.
+Inductive p7Status := StValid | StInvalid | StUnknown.
+
+Definition processedSigners {A} (auth all : bool) (l : list A) : list A :=
+  if auth && negb all then firstn 1 l else l.
+
+Definition signerFails (s : signerAssess) : bool := negb (sigAuth s) || negb (digestOK s).
+Definition signerComplete (s : signerAssess) : bool := sigAuth s && digestOK s && otherOK s.
+
+Definition p7StatusOf (auth all : bool) (signers : list signerAssess) : p7Status :=
+  let ps := processedSigners auth all signers in
+  if existsb signerFails ps then StInvalid                 (* markInvalidEvidence: sticky *)
+  else if negb (isNil ps) && forallb signerComplete ps then StValid
+  else StUnknown.
